@@ -93,10 +93,70 @@ impl<T: Flat> ToXdr for T {
         Bytes::from_array(e, &[0x58, 0x44, (idx >> 8) as u8, idx as u8])
     }
 }
+// ---- harness-pinned decoding (additive; inert unless a harness calls `preset_from_xdr`)
+// A value whose model serialisation cannot fit into one model `Bytes` (e.g. a struct with `Bytes` members, which is
+// as wide as `Bytes` itself) can never come out of `from_xdr` above. A harness may instead PIN one pair
+// "(these bytes) decode to (this value)": `from_xdr::<T>` of exactly these bytes then yields the value, every other
+// input is decoded as before. With bytes and value both arbitrary this is a superset of the graph of any injective
+// partial decoding function (which is all that callers of `from_xdr` may rely on).
+/// word capacity of the pinned value
+pub const PXW: usize = 64;
+pub struct XdrPreset {
+    pub set: bool,
+    pub ty: u64,
+    pub n: u32,
+    pub len: u32,
+    pub key: [u8; BYTES_CAP],
+    pub w: [u64; PXW],
+}
+pub static mut XDR_PRESET: XdrPreset = XdrPreset { set: false, ty: 0, n: 0, len: 0, key: [0; BYTES_CAP], w: [0; PXW] };
+/// declare "`b` is the XDR encoding of `v`" (one pair at a time; a later call replaces the pair)
+#[allow(static_mut_refs)]
+pub fn preset_from_xdr<T: Flat>(b: &Bytes, v: &T) {
+    if T::W > PXW {
+        model::overflow()
+    }
+    let p = unsafe { &mut XDR_PRESET };
+    p.set = true;
+    p.ty = T::TY;
+    p.n = T::W as u32;
+    p.len = b.len();
+    p.key = *b.raw();
+    v.put(&mut p.w[..T::W]);
+}
+#[allow(static_mut_refs)]
+fn preset_lookup<T: Flat>(b: &Bytes) -> Option<T> {
+    let p = unsafe { &XDR_PRESET };
+    if !p.set || p.ty != T::TY || p.n as usize != T::W || T::W > PXW || p.len != b.len() {
+        return None;
+    }
+    let raw = b.raw();
+    let mut same = true;
+    let mut c = 0;
+    while c < BYTES_CAP {
+        same &= raw[c] == p.key[c];
+        if c + 1 < BYTES_CAP { same &= raw[c + 1] == p.key[c + 1]; }
+        if c + 2 < BYTES_CAP { same &= raw[c + 2] == p.key[c + 2]; }
+        if c + 3 < BYTES_CAP { same &= raw[c + 3] == p.key[c + 3]; }
+        if c + 4 < BYTES_CAP { same &= raw[c + 4] == p.key[c + 4]; }
+        if c + 5 < BYTES_CAP { same &= raw[c + 5] == p.key[c + 5]; }
+        if c + 6 < BYTES_CAP { same &= raw[c + 6] == p.key[c + 6]; }
+        if c + 7 < BYTES_CAP { same &= raw[c + 7] == p.key[c + 7]; }
+        c += 8;
+    }
+    if same {
+        Some(T::unflat(&p.w[..T::W]))
+    } else {
+        None
+    }
+}
 #[cfg(not(feature = "xdrdigest"))]
 impl<T: Flat> FromXdr for T {
     type Error = crate::ConversionError;
     fn from_xdr(_e: &Env, b: &Bytes) -> Result<Self, Self::Error> {
+        if let Some(v) = preset_lookup::<T>(b) {
+            return Ok(v);
+        }
         if b.len() as usize != T::W * 8 {
             return Err(crate::ConversionError);
         }
